@@ -72,7 +72,7 @@ UNITS = [
     unit('make_promise', 'make_promise', uses=('user_cb', 'cb_invoke')),
     unit('make_promise_st', 'make_promise_st', uses=('user_cb', 'cb_invoke', 'st_alloc', 'st_dealloc'), extra_globals=VT_CBS),
     unit('discard', 'discard', uses=('fac_call', 'fc_subscribe', 'd_fin', 'd_ctor'), ptypes=DAWT),
-    unit('d_fin', 'd_fin', uses=('d_dtor',), ptypes={'DAWT': N['d_dtor'] + '#0'}, extra_defines=['CV_HAS_d_fin_u 1']),
+    unit('d_fin', 'd_fin', uses=('d_dtor',), ptypes={'DAWT': N['d_dtor'] + '#0'}, extra_defines=['CV_HAS_d_fin_u 1'], extra_roots=['d_dtor']),
     unit('cfa_ctor', 'cfa_ctor', uses=('cfa_wakeup', 'obj_done'), ptypes=CFAT),
     unit('cfa_wakeup', 'cfa_wakeup', uses=('obj_done',), extra_types={'CFA': 'cocls::call_fn_future_awaiter<&c18_obj::done>'}, extra_defines=['CV_HAS_cfa_wakeup_u 1']),
     unit('cfa_shift', 'cfa_shift', uses=('cfa_wakeup', 'obj_done', 'fac_call', 'fc_subscribe'), ptypes={'CFA': N['cfa_shift'] + '#0'}, extra_roots=['cfa_wakeup']),
@@ -100,6 +100,7 @@ D_TYPES_L = dict(D_TYPES, FUTL='cocls::future<long>', ATOM_FUL='std::atomic<cocl
 D_GLOBALS = {'FRAME_KIND': 'g_frame_kind', 'G_REC': 'g_rec', 'G_ST_ALLOCS': 'g_st_allocs', 'G_ST_DEALLOCS': 'g_st_deallocs', 'G_ST_BLOCK': 'g_st_block', 'G_ST_FREED': 'g_st_freed',
              'G_ST_ALLOC_SIZE': 'g_st_alloc_size', 'G_ST_DEALLOC_SIZE': 'g_st_dealloc_size'}
 D_BOUNDARY = [r'^std::deque<std::__n4861::coroutine_handle<void>', r'^std::atomic<bool>::wait\(', r'^std::atomic<bool>::notify'] + list(AP.values())
+REPLAY = dict(src='c18_drive.cpp', mode='C18', flags=['-I', '/verif/drivers', '-g', '-fsanitize=address,undefined'])
 def drive(before, counting):
     what = 'callback_await%s on a future<int>, %s; symbolic outcome (value / exception / promise dropped), symbolic value and error code; single thread, no spurious CAS failure' % (
             '_alloc with a counting storage' if counting else ' (default_storage)', 'resolved before registration' if before else 'resolved after registration (same thread)')
@@ -107,7 +108,7 @@ def drive(before, counting):
                 roots=[r'^c18_drive$'], names={}, names_opt=dict(AP), types=D_TYPES, globals=D_GLOBALS, boundary=D_BOUNDARY,
                 lib=['rt_core.c', 'rt_atomic_seq.c', 'model_dq_ring.c', 'model_heap_frames.c'], spec=['C18/h_drive.c'], harness='h_drive',
                 defines=['CV_NO_HEAP_PRIMS 1', 'CV_NO_SPURIOUS_CAS 1', FRAMES, 'DRIVE_cbawait 1', 'DRIVE_BEFORE %d' % before, 'DRIVE_COUNTING %d' % counting],
-                unwind=6, object_bits=11, kind='bounded', timeout=300, bounded=what, under_contract=[])
+                unwind=6, object_bits=11, kind='bounded', timeout=600, bounded=what, under_contract=[], replay=REPLAY)
 UNITS += [drive(b, c) for c in (0, 1) for b in (1, 0)]
 def compose(kind, root, what, before=None, counting=None, types=D_TYPES, extra_globals=None):
     nm = 'drive_%s' % kind + ('' if before is None else ('_before' if before else '_after')) + ('' if counting is None else ('_storage' if counting else '_heap'))
@@ -115,11 +116,43 @@ def compose(kind, root, what, before=None, counting=None, types=D_TYPES, extra_g
     return dict(name=nm, driver='c18_drive.cpp', roots=[root], names={}, names_opt=dict(AP, probe=r'^c18_probe$'), types=types, globals=g, boundary=D_BOUNDARY + [r'^c18_probe$'],
                 lib=['rt_core.c', 'rt_atomic_seq.c', 'model_dq_ring.c', 'model_heap_frames.c'], spec=['C18/h_drive.c'], harness='h_drive',
                 defines=['CV_NO_HEAP_PRIMS 1', 'CV_NO_SPURIOUS_CAS 1', 'CV_FRAME_KINDS', 'DRIVE_%s 1' % kind, 'DRIVE_BEFORE %d' % (before or 0), 'DRIVE_COUNTING %d' % (counting or 0)],
-                unwind=6, object_bits=11, kind='bounded', timeout=300, under_contract=[],
+                unwind=6, object_bits=11, kind='bounded', timeout=600, under_contract=[], replay=REPLAY,
                 bounded=what + ('' if before is None else (', resolved before registration' if before else ', resolved after registration (same thread)')) + '; symbolic outcome (value / exception / promise dropped) and values; single thread')
 UNITS += [compose('mp', r'^c18_drive_mp$', 'composition: make_promise(%s) + real promise resolution' % ('storage' if c else 'heap'), counting=c) for c in (0, 1)]
 UNITS += [compose('discard', r'^c18_drive_discard$', 'composition: discard() of a real future<int>', before=b) for b in (1, 0)]
 UNITS += [compose('cfa', r'^c18_drive_cfa$', 'composition: call_fn_future_awaiter << real future<int>', before=b) for b in (1, 0)]
 UNITS += [compose('conv', r'^c18_drive_conv$', 'composition: future_conv<member fn> << real future<int>, converter returns or throws (symbolic)', before=b, types=D_TYPES_L,
                   extra_globals={'G_LREC': 'g_lrec', 'G_CONV_CALLS': 'g_conv_calls'}) for b in (1, 0)]
-META = {}
+META = dict(
+    level='proof',
+    level_text=('The non-coroutine adapters are verified against contracts taken from the property statement: future_with_cb (constructor; its resume lambda, heap and storage variant), make_promise (both overloads), '
+        'discard (whole function incl. its Awt constructor and the `if(!w) resume()` tail; Awt::fin), call_fn_future_awaiter (constructor, operator<<, wakeup), future_conv_promise_base (operator<<, operator(), '
+        'Hlp::operator<<) and the constructors + resume lambdas of three future_conv specialisations (member function, free function, member function with promise). The timing is carried by the abstract callee '
+        'future_common::subscribe: it answers with a nondeterministic bool recorded in ghost state - false = already resolved at registration (or resolved by another thread just before), true = subscribed - and, '
+        'when it answers true, may let the resolving thread run the awaiter\'s REAL resume function to completion before the registering thread continues (concurrent resolution; anything the adapter touches '
+        'afterwards is then a use-after-free). Every unit is verified for BOTH answers and for the operation\'s three outcomes (value / exception / dropped promise), each with a reachability sentinel. '
+        'Clauses: the completion (user callback with THE future / owner member function / conversion / destruction of the discarded result) runs exactly once - by the registering thread iff subscribe said false, '
+        'by the resolver otherwise, never both, never neither - and sees the operation\'s outcome on a resolved future; future_with_cb calls fn while the object is alive and then releases the block exactly once '
+        '(global delete, or the given storage with the same pointer and size); make_promise allocates exactly one block (from the storage if one is given) holding an unresolved future whose only waiter is its own '
+        'awaiter and returns the promise armed for exactly that future; discard allocates one block and releases it exactly once in every timing; the future_conv lambdas resolve the OUTER future exactly once with '
+        'exactly the converted value, the converter\'s exception, the source\'s exception, or await_canceled_exception for a broken source promise, and never leave the parked promise armed. '
+        'callback_await (a coroutine) is covered by bounded drives of the really lowered callback_await_coro; further drives run each non-coroutine adapter end to end on the real promise/future code.'),
+    level_note=('Trusted: the abstract callee future_common::subscribe and its environment model (its real behaviour under interference = specs/C02; that a subscribed awaiter is resumed exactly once after the '
+        'resolution = C01/C02), the outer promise<long> operations as recording stubs in the future_conv lambda units (real behaviour = C01, proved there for promise<int>), user code as recording stubs that do not '
+        'throw except where stated (converter), clang front end, ir2c; DFCC makes vtables nondeterministic, the harness of the resume-lambda units re-establishes the two destructor slots. '
+        'Documented preconditions written as requires: an adapter object is not re-armed while a previous operation is pending; the resume function runs only after the awaited future was resolved. '
+        'BOUNDED (never counted as discharged): callback_await / callback_await_alloc drives = timing (before / after registration, same thread) x storage (default_storage / counting storage) as units, outcome '
+        '(value / exception / dropped promise) and values symbolic; composition drives of make_promise, discard, call_fn_future_awaiter, future_conv with symbolic outcome; single thread, std::atomic<T*> read at '
+        'member-function level, no spurious CAS failure; timing and storage are concrete per unit because symbolic control makes the lowered state machines fork beyond reach (measured). The drive oracles are '
+        'confirmed natively (g++, ASan/UBSan) by replay/c18_drive.cpp. Not covered: concurrent resolution of callback_await on another thread beyond the C02 subscription contract, the factory function itself '
+        'throwing inside operator<< (result_of\'s catch path), future_conv specialisations for void sources / void targets / free function with context, value types other than int / long, a callback that throws '
+        '(std::terminate by noexcept), await_result<void>.'),
+    technique='CBMC code contracts via goto-instrument --dfcc on the C translation of clang IR of future.h / future_conv.h with the subscription as an abstract callee that also plays the concurrent resolver; bounded symbolic execution of the really lowered callback_await_coro and of end-to-end adapter scenarios',
+    trusted_base=['abstract callee future_common::subscribe incl. the concurrent-resolver step, factory of the awaited future, user callbacks / converters / storage, outer promise<long> operations as recording stubs (specs/C18/c18_spec.h)',
+                  'sequential atomic primitives for the adapter-local atomics (lib/rt_atomic_seq.c): adapter objects are touched by one thread at a time, ordered by the subscription protocol (C02)',
+                  'exception_ptr reference counting stubs (lib/rt_core.c)',
+                  'bounded drives only: concrete ring model of std::deque<coroutine_handle<>> (lib/model_dq_ring.c), typed coroutine frames (lib/model_heap_frames.c), std::atomic<T*> at member-function level (specs/C18/h_drive.c)'],
+    assumptions=['a subscribed awaiter is resumed exactly once, after the resolution, by the resolving thread (C01 / C02)', 'promise<long> behaves like the promise<int> verified in C01',
+                 'user callbacks do not throw (documented: resume functions are noexcept); converters may throw', 'adapter objects are not re-armed while an operation is pending (documented)',
+                 'bounded drives: one operation per scenario, single thread'],
+    explanation='see level_text')
